@@ -79,6 +79,18 @@ CHECKS["C06"] = dict(
     technique="TLA+ transcription of the evaluation rules; TLC evaluates the exhaustive bounded case space and logged random cases against the real classes",
     design="5 C06")
 
+CHECKS["C08"] = dict(
+    text=("Calib.tla defines context-then-default-then-raw selection (criteria from Criteria.tla, evaluated with the current raw "
+          "value), exact polynomial evaluation, order-0/1 splines over the CLOSED knot range with optional extrapolation and "
+          "CalibrationError otherwise, float result class, enumeration / boolean derivation from the raw value, time-type "
+          "scale/offset, and raw_value retention. TLC evaluates it on the exhaustive small space (every knot, both end points, "
+          "midpoints, outside; precedence and fall-through of <= 3 context calibrators; enum/bool over calibrated encodings) and on "
+          "random calibrator sets, and compares with the real ParameterType.parse_value built by constructors and from XML."),
+    note="Oracle domain is the exact-dyadic sub-domain (coefficients, knots with power-of-two spacing, raw values); general decimal "
+         "coefficients are not decided. " + TRUSTED,
+    technique="TLA+ transcription with exact rational arithmetic; TLC evaluates the exhaustive bounded case space and logged random cases against the real classes",
+    design="5 C08")
+
 NOT_YET = {}
 for _i in range(1, 21):
     _p = f"C{_i:02d}"
